@@ -158,6 +158,7 @@ def cmdHost (rest : String) : String :=
       match o.splitOn ":" with
       | ["e", p, t] => some (.edit p.toNat! t.toNat!)
       | ["r", p] => some (.selectRoot p.toNat!)
+      | ["d", p, t] => some (.disk p.toNat! t.toNat!)
       | _ => none
     let st := Host.run env 10000 ops
     match st.db with
